@@ -430,18 +430,19 @@ fn multi_case(ctx: &mut Ctx, i: usize, max_deg: usize) {
     let mut rng = rng_for(ctx.seed, "C14/multi", i as u64);
     let m = if i < 8 { i + 1 } else { range(&mut rng, 1, 8) };
     let k = if i < 8 { 8 - i } else { range(&mut rng, 1, 8) };
-    // coefficient-vector lengths: at least m (the streaming prover reads m coefficients first),
-    // shorter vectors are exercised by `short_case`
+    // coefficient-vector lengths: around m (the streaming prover's window), shorter than m (the
+    // polynomial is its own remainder), and the whole range
     let lens: Vec<usize> = (0..k)
-        .map(|_| match range(&mut rng, 0, 5) {
+        .map(|_| match range(&mut rng, 0, 6) {
             0 => m,
             1 => m + 1,
-            _ => range(&mut rng, m, (max_deg + 1).max(m)),
+            2 => range(&mut rng, 0, m - 1),
+            _ => range(&mut rng, 1, max_deg + 1),
         })
         .collect();
     let maxlen = *lens.iter().max().unwrap();
-    let max_degree = maxlen - 1 + [0, 0, 1, 5][range(&mut rng, 0, 3)];
-    let max_degree = max_degree.max(m); // the verifier key needs m G1 powers and m+1 G2 powers
+    let max_degree = maxlen.max(1) - 1 + [0, 0, 1, 5][range(&mut rng, 0, 3)];
+    let max_degree = max_degree.max(m); // a key for m points: max_degree >= max_eval_points >= m (and >= 1)
     let mep = range(&mut rng, m, 8);
     let key = match make_key(ctx, &id, &mut rng, max_degree, mep) {
         Some(k) => k,
@@ -631,14 +632,12 @@ fn multi_case(ctx: &mut Ctx, i: usize, max_deg: usize) {
                         "verify_multi_points did not accept the true evaluations", replay.clone());
                 }
             } else if must && !acc {
-                // The key derived from the *stream* committer key holds a single G1 element, so the
-                // commitment of the interpolant is truncated to its constant term: recorded, see the
-                // report of the run.
-                ctx.rep.count(&format!("multi/stream-vk-rejects-truth/points-{}", m));
-                if m == 1 {
-                    ctx.rep.expect_fail(&id, "streaming_kzg/multi/honest-rejected/stream-vk-one-point",
-                        "verify_multi_points (stream-derived key, one point) did not accept the truth", replay.clone());
-                }
+                ctx.rep.expect_fail(
+                    &id,
+                    "streaming_kzg/multi/stream-vk-rejects-truth",
+                    "verify_multi_points with the stream-derived verifier key did not accept the true evaluations",
+                    replay.clone(),
+                );
             }
             if !must && acc {
                 ctx.rep.expect_fail(&id, &format!("streaming_kzg/multi/false-accepted/vk{}", vkfrom),
